@@ -404,7 +404,7 @@ def wicks(expr, rules: Rules = None, simplify_kronecker_deltas: bool = False):
             if simplify_kronecker_deltas:
                 result = evaluate_deltas(result)
     else:  # neither add, Mul, NO or Operator -> maybe a number or a tensor
-        return expr
+        result = expr
 
     # apply rules to the result
     if rules is None:
